@@ -29,6 +29,21 @@ def rich_instance(K, target):
 
 
 QUICK = [True]
+SNAP_TOKENS = [None]      # tokens of the element under test from spec_enums.json (an oracle that is not the code under check)
+_SNAP = []
+
+
+def snapshot():
+    if not _SNAP:
+        import json, os
+        _SNAP.append(json.load(open(os.path.join(os.path.dirname(os.path.dirname(os.path.abspath(__file__))), "spec_enums.json"))))
+    return _SNAP[0]
+
+
+def snapshot_tokens(cls, attr):
+    d = snapshot()
+    sid = d["attrs"].get(cls + "." + attr)
+    return list(d["sets"][sid]) if sid else None
 
 
 def lexical(ctx, conv):
@@ -37,7 +52,7 @@ def lexical(ctx, conv):
         t = ctx.enum("t", ["Y", "N"])
         return t, ("bool", t == "Y")
     if isinstance(conv, Types.OneOf):
-        toks = [v for v in conv.valid]
+        toks = SNAP_TOKENS[0] or [v for v in conv.valid]
         t = ctx.enum("t", toks)
         return t, ("same", t)
     if isinstance(conv, Types.Integer):
@@ -152,7 +167,9 @@ def h_element(ctx, cls, attrs, quick=True):
     for ch in tree:
         if ch.tag == ofxgen.wire_tag(K, attr):
             node = ch
+    SNAP_TOKENS[0] = snapshot_tokens(cls, attr)
     text, ref = lexical(ctx, conv)
+    SNAP_TOKENS[0] = None
     if ref[0] == "dec" and ctx.known("C03-negative-zero"):
         return
     node.text = text
@@ -208,7 +225,7 @@ HARNESSES = dict(element=h_element, listpos=h_listpos)
 META = dict(
     bounds=dict(documents="the class's document (a valid instance holding the element) with one element text symbolic at a time",
                 texts="Y/N; sign + 1-4 digits; decimals <= 4 digits with '.' or ','; character data 1-3 chars over the printable alphabet "
-                      "with one entity escape at a symbolic position; every enumeration token; 5 date-time / 3 time notation shapes with symbolic digits",
+                      "with one entity escape at a symbolic position; every enumeration token recorded in spec_enums.json (snapshot oracle, 48 token sets / 129 elements); 5 date-time / 3 time notation shapes with symbolic digits",
                 lists="3 members, symbolic position"),
     models=["instrumented from_etree/_convert/update_args/__init__/Element.__set__ + the converters of C09/C10"],
     assumptions=["reference type rules: harness/c09.py calendar arithmetic, harness/c10.py entity decoder and half-even quantizer"],
@@ -223,6 +240,19 @@ def instances(tier, seed):
         opts.setdefault("wall_s", 180 if not full else 900)
         opts.setdefault("timeout_ms", 20000)
         out.append(dict(name=name, harness=h, fn=HARNESSES[h], params=params, opts=opts))
+    # every recorded enumeration token of every distinct token set (quick: one element per set; thorough: every element)
+    snap = snapshot()
+    seen_sets = set()
+    for key in sorted(snap["attrs"]):
+        cn, an = key.split(".")
+        sid = snap["attrs"][key]
+        K = getattr(ofxgen.ofxtools.models, cn, None)
+        if K is None or an not in K.spec_no_listaggregates or (not full and sid in seen_sets):
+            continue
+        if rich_instance(K, an) is None:
+            continue
+        seen_sets.add(sid)
+        mk(f"enum[{key}]", "element", dict(cls=cn, attrs=[an], quick=not full), max_paths=20000)
     for K in ofxgen.pick_classes(tier, seed):
         n = K.__name__
         if elements_of(K):
